@@ -747,7 +747,7 @@ def main():
             n_un += 1
             out.append(f"-- UNINSTANTIABLE {r['opt']}<{pat}> (line {r['line']}): {u}\n\n")
             table.append(dict(name=name, opt=r["opt"], pattern=pat, line=r["line"], status="uninstantiable", reason=str(u),
-                              pattern_heads=[p[1] for p in (r["pattern"] or [])]))
+                              ast=dict(tparams=r["tparam_names"], pattern=r["pattern"])))
             print(f"UNINSTANTIABLE {r['opt']}<{pat}> line {r['line']}: {u}")
             continue
         n_ok += 1
@@ -762,7 +762,8 @@ def main():
                    f"    {tr['rhs']} {rel} {tr['lhs']} := by\n  remora_rule\n\n")
         table.append(dict(name=name, opt=r["opt"], pattern=pat, line=r["line"], status="translated",
                           lhs=tr["lhs"], rhs=tr["rhs"], calls=tr["calls"], checks=tr["checks"], conversions=tr["conversions"],
-                          pattern_heads=[p[1] for p in (r["pattern"] or [])]))
+                          ast=dict(tparams=r["tparam_names"], pattern=r["pattern"], typedefs=r["typedefs"],
+                                   params=[pn for _, pn in r["params"]], stmts=r["stmts"])))
     out.append("end SharkVerif.Remora.Rules\n")
     text = "".join(out)
     os.makedirs(os.path.dirname(a.out), exist_ok=True)
@@ -771,7 +772,9 @@ def main():
             f.write(text)
     os.makedirs(os.path.dirname(a.json), exist_ok=True)
     with open(a.json, "w") as f:
-        json.dump(dict(rules=table, total=len(rules), translated=n_ok, uninstantiable=n_un), f, indent=1)
+        json.dump(dict(rules=table, total=len(rules), translated=n_ok, uninstantiable=n_un,
+                       classes={c: [[a, srt] for a, srt in v[2]] for c, v in CLASSES.items()},
+                       optimizers={o: v[1] for o, v in OPTIMIZERS.items()}), f, indent=1)
     print(f"remora_rules: {len(rules)} rules parsed, {n_ok} translated to lemmas, {n_un} uninstantiable")
 
 
